@@ -210,16 +210,20 @@ def check_boh(ctx):
     for hs in itertools.chain(itertools.permutations(['ab', 'abb', 'b', ''], 1), itertools.permutations(['ab', 'abb', 'b', ''], 2),
                               itertools.permutations(['ab', 'abb', 'b', ''], 3)):
         for vis in itertools.product(VIS, repeat=len(hs)):
-            for lm in LMS:
+            # every hypothesis has its own LM score or none (a bag may hold hypotheses that the LM has scored next to ones it has not)
+            for lms in itertools.product(LMS, repeat=len(hs)):
+                lm = lms[0] if len(set(lms)) == 1 else lms
                 for vw, lw in ((1.0, 1.0), (0.5, 2.0)):
                     boh = BagOfHypotheses()
-                    for h, v in zip(hs, vis):
-                        boh.add(h, v, lm)
+                    for h, v, l_ in zip(hs, vis, lms):
+                        boh.add(h, v, l_)
                     cn = produce_cn_from_boh(boh, visual_weight=vw, lm_weight=lw, normalize=False)
                     ctx.executed()
                     ref = []
-                    for h, v in zip(hs, vis):
-                        ref = add_hypothese(ref, h, math.exp(vw * v + (lw * lm if lm is not None else 0.0)))
+                    for h, v, l_ in zip(hs, vis, lms):
+                        ref = add_hypothese(ref, h, math.exp(vw * v + (lw * l_ if l_ is not None else 0.0)))
+                    if len({l_ is None for l_ in lms}) == 2:
+                        ctx.tag('bag-with-and-without-lm-scores')
                     ctx.state(('boh', canon(cn)))
                     if canon(cn) != canon(ref):
                         ctx.violation('built-from-bag', f'{ID}/produce_cn_from_boh/weights',
@@ -384,5 +388,5 @@ def describe(tier):
                 'every history and on the final network. Non-trivial: an add that inserted >= 2 new positions at once.',
         'bounds': BOUNDS[tier], 'alphabets': {'strings': STRINGS, 'scores': SCORES},
         'assumptions': ['sorted_cn_paths is compared with the full product only when the product has <= 4000 paths (counter reports skips)'],
-        'min_nontrivial': 20, 'required_tags': ['normalised-position-with-a-vanishing-arc', 'hypotheses-with-spaces', 'hypotheses-longer-than-255', 'vanishing-score-hypothesis', 'insertion', 'several-insertions-in-one-add', 'bag-with-lm-scores'],
+        'min_nontrivial': 20, 'required_tags': ['normalised-position-with-a-vanishing-arc', 'hypotheses-with-spaces', 'hypotheses-longer-than-255', 'vanishing-score-hypothesis', 'insertion', 'several-insertions-in-one-add', 'bag-with-lm-scores', 'bag-with-and-without-lm-scores'],
     }
